@@ -183,6 +183,7 @@ def run(ctx):
     float_conversion_probe(ctx)
     float_expr_layer(ctx, 40 if quick else 160, 8 if quick else 30)
     float32_expr_layer(ctx, 20 if quick else 80, 6 if quick else 20)
+    pow_layer(ctx)
     tables = json.loads(ctx.hook_call(["tables"]))
     g = G(rng, tables["common_type"])
     nrec, ncf = (3, 14) if quick else (10, 24)
@@ -517,6 +518,93 @@ def float_expr_layer(ctx, n_exprs, n_valsets):
                        "rounded value (python bits %s, c++ bits %s)" % (text(t), [repr(d) for d in ds], ie, who, pv, cv),
                        {"expression": text(t), "fields": dict(zip(FD, [repr(d) for d in ds])), "ie": ie, "python_bits": pv,
                         "cpp_bits": cv, "model": pkg.yaml()})
+
+
+POW_EXPRS = ["(da * db) ** dc", "da * db ** dc", "(da / db) ** dc", "da / db ** dc", "(da + db) ** dc", "da + db ** dc", "(da ** db) ** dc",
+             "da ** db ** dc", "(-da) ** dc", "(da * db) ** dc * da", "da ** (db * dc)", "da ** db * dc", "(da - db) ** dc / db",
+             "(da * db) ** ia", "(ia * ib) ** dc"]
+
+
+def pow_layer(ctx):
+    """`**` in computed fields: products, quotients, sums and powers as the base or the exponent of a power, on small whole numbers
+    (every intermediate value is an integer or a dyadic rational below 2^40, so pow is exact in every libm); the generated
+    Python and C++ must both give the mathematical value, which is computed here with exact rationals from the SOURCE text"""
+    from fractions import Fraction
+    names = ["p" + "abcdefghijklmnopqrstuvwxyz"[k] for k in range(len(POW_EXPRS))]
+    pkg = Package("Cpw")
+    pkg.defs.append(("Rp", "Rp: !record\n  fields:\n    da: float64\n    db: float64\n    dc: float64\n    ia: int32\n    ib: int32\n  computedFields:\n" +
+                     "\n".join("    %s: \"%s\"" % (n, e) for n, e in zip(names, POW_EXPRS))))
+    pkg.protocols.append(("Pz", [("s", __import__("ymodel").prim("int32"), False)]))
+    gp = genrun.GenPackage(ctx, pkg, "cpw", ndjson=False, cpp=True)
+    if not gp.generate():
+        raise RuntimeError("yardl rejected the power package:\n%s\n%s" % (gp.gen_out[-1500:], pkg.yaml()))
+    valsets = [(2, 3, 2, 2, 3), (2, 4, 3, 3, 2), (3, 2, 2, 2, 2), (4, 2, 2, 1, 3), (-2, 4, 2, 2, 2)]
+
+    def exact(expr, vs):
+        env = dict(zip(("da", "db", "dc", "ia", "ib"), (Fraction(v) for v in vs)))
+        class Num:
+            def __init__(self, f): self.f = Fraction(f)
+            def __add__(self, o): return Num(self.f + o.f)
+            def __sub__(self, o): return Num(self.f - o.f)
+            def __mul__(self, o): return Num(self.f * o.f)
+            def __truediv__(self, o): return Num(self.f / o.f)
+            def __neg__(self): return Num(-self.f)
+            def __pow__(self, o):
+                if o.f.denominator != 1 or abs(o.f) > 64:
+                    raise OverflowError
+                return Num(self.f ** int(o.f))
+        try:
+            v = eval(expr, {"__builtins__": {}}, {k_: Num(v_) for k_, v_ in env.items()}).f     # Python's precedence of ** over unary minus is yardl's
+        except (OverflowError, ZeroDivisionError):
+            return None
+        return v if abs(v) < 2 ** 40 and (v.denominator & (v.denominator - 1)) == 0 else None
+    prog = ["import sys, json", "sys.path.insert(0, %r)" % os.path.join(gp.dir, "python"), "import cpw", "out = {}"]
+    for vi, vs in enumerate(valsets):
+        prog.append("r = cpw.Rp(da=%d.0, db=%d.0, dc=%d.0, ia=%d, ib=%d)" % vs)
+        for n in names:
+            prog.append("try:\n    out['%d %s'] = float(r.%s()).hex()\nexcept Exception as e:\n    out['%d %s'] = 'ERR:' + type(e).__name__" % (vi, n, n, vi, n))
+    prog.append("print(json.dumps(out))")
+    open(os.path.join(gp.dir, "runp.py"), "w").write("\n".join(prog))
+    rc, o, e = sh([PY_VT, "-W", "ignore", os.path.join(gp.dir, "runp.py")], timeout=300)
+    if rc != 0:
+        raise RuntimeError("generated Python power computed fields failed to run: " + e[-1500:])
+    pyres = json.loads(o)
+    cpp = ['#include <iostream>', '#include <cstdio>', '#include "generated/types.h"', "int main() {"]
+    for vi, vs in enumerate(valsets):
+        cpp.append("  { cpw::Rp r; r.da = %d; r.db = %d; r.dc = %d; r.ia = %d; r.ib = %d;" % vs)
+        for n in names:
+            cpp.append('    std::printf("%d %s %%a\\n", (double)r.%s());' % (vi, n, n[0].upper() + n[1:]))
+        cpp.append("  }")
+    cpp += ["  return 0;", "}"]
+    cdir = os.path.join(gp.dir, "cpp")
+    open(os.path.join(cdir, "cpw.cc"), "w").write("\n".join(cpp))
+    rc, o, e = sh(["g++", "-std=c++17", "-O0", "-w", "-I", genrun.SHIMS, "-I", "generated", "cpw.cc", "generated/types.cc", "-o", "cpw"], cwd=cdir, timeout=900)
+    if rc != 0:
+        ctx.report("cpp-compile", "generated C++ with `**` computed fields does not compile", {"model": pkg.yaml(), "error": e[-2000:]})
+        return
+    rc, o, e = sh([os.path.join(cdir, "cpw")], timeout=120)
+    cppres = {}
+    for ln in o.strip().split("\n"):
+        a, b, v = ln.split()
+        cppres["%s %s" % (a, b)] = float.fromhex(v)
+    for vi, vs in enumerate(valsets):
+        for n, expr in zip(names, POW_EXPRS):
+            want = exact(expr, vs)
+            key = "%d %s" % (vi, n)
+            pv = pyres.get(key)
+            pvf = float.fromhex(pv) if isinstance(pv, str) and not pv.startswith("ERR") else None
+            cv = cppres.get(key)
+            if want is None:
+                ctx.count("pow_cases", "outside the exact range")
+                continue
+            ctx.count("pow_cases", "exact")
+            ctx.case(("pow", expr, vs), nontrivial=True, sample={"expression": expr, "values": dict(zip(("da", "db", "dc", "ia", "ib"), vs)),
+                                                                 "mathematical": float(want), "python": pvf if pvf is not None else pv, "cpp": cv})
+            if pvf != float(want) or cv != float(want):
+                ctx.report("pow-wrong-value", "computed field `%s` on %s is %s in generated Python and %s in generated C++; the mathematical value is %s"
+                           % (expr, dict(zip(("da", "db", "dc", "ia", "ib"), vs)), pvf if pvf is not None else pv, cv, want),
+                           {"expression": expr, "values": dict(zip(("da", "db", "dc", "ia", "ib"), vs)), "python": pvf if pvf is not None else pv, "cpp": cv,
+                            "mathematical": str(want), "model": pkg.yaml()})
 
 
 def float32_expr_layer(ctx, n_exprs, n_valsets):
